@@ -276,4 +276,12 @@ def replay(path):
     ob = d["obligation"]
     tag, name = ob["name"].split(":", 1)
     log("[C16] re-running %s on the current tree" % ob["name"])
-    return run("thorough", only=["%s@%s" % (name, tag)])
+    # a replay poses one obligation only: keep the evidence file of the last full run
+    ev = os.path.join(os.path.dirname(HDIR), "..", "..", "evidence", PID + ".json")
+    keep = open(ev).read() if os.path.exists(ev) else None
+    try:
+        return run("thorough", only=["%s@%s" % (name, tag)])
+    finally:
+        if keep is not None:
+            with open(ev, "w") as fh:
+                fh.write(keep)
